@@ -305,11 +305,51 @@ def transports_worker(task: Tuple) -> Dict[str, Any]:
     return out
 
 
+def decode_history(rep: report.Report, tier: str) -> None:
+    """A quantity document / composite row decodes to the same unit whatever was decoded earlier
+    in the process: a staged process decodes one document per registered symbol with one unit
+    module imported, imports the rest, decodes again, and must agree with a process that
+    imported everything first (the staged runner of C13, decoding instead of parsing)."""
+    import json as _json
+    import subprocess
+
+    import measured
+    from props import c13
+
+    texts = sorted(set(measured.Unit._by_symbol))
+    for mode in ("json", "quantity"):
+        f = subprocess.run([report.REPO_PY, "-c", c13.FRESH_SRC, _json.dumps(texts), mode], capture_output=True,
+                           text=True, timeout=300, cwd="/")
+        if f.returncode != 0:
+            raise symnum.HarnessError(f"fresh decode process failed: {f.stderr[-400:]}")
+        ref = _json.loads(f.stdout.strip().splitlines()[-1])
+        for first in (["us"] if tier == "quick" else ["si", "us", "iec", "energy", "avoirdupois"]):
+            p = subprocess.run([report.REPO_PY, "-c", c13.STAGED_SRC, first, _json.dumps(texts), mode],
+                               capture_output=True, text=True, timeout=300, cwd="/")
+            if p.returncode != 0:
+                raise symnum.HarnessError(f"staged decode process failed: {p.stderr[-400:]}")
+            late = _json.loads(p.stdout.strip().splitlines()[-1])
+            diff = [t for t in texts if late.get(t) != ref[t]]
+            rep.obligations += len(texts)
+            rep.discharged += len(texts) - len(diff)
+            rep.nontrivial.add(("decode-history", mode, first))
+            if diff:
+                t = diff[0]
+                rep.violation(f"C15:history:{mode}-decoding-depends-on-earlier-decodes",
+                              f"after importing measured.{first}, decoding a quantity of every symbol ({mode}), then "
+                              f"importing the rest, the unit text {t!r} decodes to {late.get(t)} instead of {ref[t]}",
+                              c13.history_replay(first, diff[:20], mode).replace(
+                                  "the result of parsing depends on what was parsed before",
+                                  "the unit a quantity decodes to depends on what was decoded before"))
+    rep.coverage["decode_history_texts"] = len(texts)
+
+
 def main(tier: str, selftest_cases: int = 0) -> int:
     rep = report.Report(PID, tier, "other")
     families.boot()
     import measured
 
+    decode_history(rep, tier)
     symbolic_newargs(rep)
     symbolic_json(rep)
     symbolic_quantity_json(rep)
